@@ -444,30 +444,29 @@ theorem insert_cinv (s : St) (e : Ev) (seen : List String) (hI : CInv s seen) (h
     CInv (s.insert e) (seen ++ [e.id]) := by
   have hq := insertCoords_quiet s e
   have hI' := hq.cinv hI
-  unfold St.insert
-  simp only []
-  have hrecv : ∀ k, recvOf { s.insertCoords e with undet := (s.insertCoords e).undet ++ [e.id], topo := (s.insertCoords e).topo + 1 } k
-      = recvOf (s.insertCoords e) k := fun _ => rfl
+  have hrecv : ∀ k, recvOf (s.insert e) k = recvOf (s.insertCoords e) k := fun _ => rfl
+  have hundet : (s.insert e).undet = (s.insertCoords e).undet ++ [e.id] := rfl
+  have hblocks : (s.insert e).blocks = (s.insertCoords e).blocks := rfl
   refine ⟨?_, ?_, fun k => by rw [hrecv]; exact hI'.r1 k, ?_, ?_, ?_, ?_⟩
-  · show ((s.insertCoords e).undet ++ [e.id]).Nodup
+  · rw [hundet]
     exact List.nodup_append.mpr ⟨hI'.u, by simp, fun a ha b hb => by
       have : b = e.id := by simpa using hb
       subst this; intro hab; subst hab; exact hf (hI'.us _ ha)⟩
   · intro x hx
-    have hx : x ∈ (s.insertCoords e).undet ++ [e.id] := hx
+    rw [hundet] at hx
     rcases List.mem_append.mp hx with hx | hx
     · exact List.mem_append.mpr (Or.inl (hI'.us x hx))
     · exact List.mem_append.mpr (Or.inr hx)
   · intro k k' hkk x hx; rw [hrecv] at hx ⊢; exact hI'.r2 k k' hkk x hx
   · intro k x hx hm
     rw [hrecv] at hx
-    have hm : x ∈ (s.insertCoords e).undet ++ [e.id] := hm
+    rw [hundet] at hm
     rcases List.mem_append.mp hm with hm | hm
     · exact hI'.r3 k x hx hm
     · have : x = e.id := by simpa using hm
       subst this; exact hf (hI'.rs k _ hx)
   · intro k x hx; rw [hrecv] at hx; exact List.mem_append.mpr (Or.inl (hI'.rs k x hx))
-  · intro b hb; rw [hrecv]; exact hI'.b b hb
+  · intro b hb; rw [hblocks] at hb; rw [hrecv]; exact hI'.b b hb
 
 theorem CInv.mono {s : St} {seen seen' : List String} (hI : CInv s seen) (h : ∀ x ∈ seen, x ∈ seen') : CInv s seen' :=
   ⟨hI.u, fun x hx => h x (hI.us x hx), hI.r1, hI.r2, hI.r3, fun k x hx => h x (hI.rs k x hx), hI.b⟩
